@@ -35,7 +35,7 @@ class Record:
     pass
 
 
-def run_tree(par, use_psutil, prefix=(), kinds=("P", "K")):
+def run_tree(par, use_psutil, prefix=(), kinds=("P", "K"), vanish=True):
     leaves = {f"worker#t{i}" for i in range(len(par)) if i not in set(x for x in par if x is not None)}
     # injected deaths: only leaves (the death of an inner node orphans its children, which then
     # are no descendants of the worker any more)
@@ -48,6 +48,7 @@ def run_tree(par, use_psutil, prefix=(), kinds=("P", "K")):
     rec = Record()
     rec.order = []
     rec.result = None
+    rec.vanish = vanish
 
     def main():
         utils = w.get("loky.backend.utils")
@@ -76,9 +77,14 @@ def run_tree(par, use_psutil, prefix=(), kinds=("P", "K")):
         orig_kill = S.kill_proc
 
         def logging_kill(proc, me, code=-9):
+            import sys as _sys
+            injected = _sys._getframe(1).f_code.co_name == "pick"
             if proc.alive:
                 rec.order.append(proc.label)
-            return orig_kill(proc, me, code)
+            r = orig_kill(proc, me, code)
+            if injected and rec.vanish:
+                proc.reaped = True      # its own parent reaps it: psutil/pgrep no longer see it
+            return r
         S.kill_proc = logging_kill
         try:
             utils.kill_process_tree(Handle())
@@ -145,8 +151,11 @@ def run_all(max_nodes=4, bound=1):
                 if bound >= 1:
                     todo += [((i, a, labels[a]),) for i, labels in enumerate(root.alts_log)
                              for a in range(1, len(labels))]
-                for prefix in todo:
-                    rec = root if prefix == () else run_tree(par, ps, prefix)
+                for prefix in todo + [p + ("zombie",) for p in todo if p]:
+                    vanish = not (prefix and prefix[-1] == "zombie")
+                    if not vanish:
+                        prefix = prefix[:-1]
+                    rec = root if prefix == () else run_tree(par, ps, prefix, vanish=vanish)
                     n += 1
                     states |= rec.states
                     for sig, msg in judge(par, ps, rec):
